@@ -147,6 +147,25 @@ func genOpenMany(rng *lib.Rand, tier string, search bool) []omCase {
 		c.Yield = true
 		cases = append(cases, c)
 	}
+	// cases the model can follow step by step (T2 `open`): Decrypt streams over prepared documents,
+	// callbacks without scheduling point, nothing in between, drained one after the other
+	nm := 20
+	if tier == "thorough" {
+		nm = 80
+	}
+	for i := 0; i < nm; i++ {
+		k := rng.Range(2, 4)
+		lens := make([]int, k)
+		rds := make([]string, k)
+		for j := range lens {
+			lens[j] = omLens[rng.Intn(len(omLens))]
+			rds[j] = omReaders[rng.Intn(5)]
+		}
+		ps := perms(k)
+		c := mk(lens, rds, ps[rng.Intn(len(ps))], "whole")
+		c.setUnwrap("plain")
+		cases = append(cases, c)
+	}
 	// generated
 	n := 40
 	if tier == "thorough" {
